@@ -132,6 +132,24 @@ package server
 //@   loop 1 invariant [C08:strictly_before_later_transactions] LinesApart(journal) ==> (forall k int, j int :: {ranges[k]; journal.Transactions[j]} 0 <= k && k < len(ranges) && rangeindex < j && j < len(journal.Transactions) ==> ranges[k].EndLine < journal.Transactions[j].Range.Start.Line - 1)
 //@   loop 1 decreases len(journal.Transactions) - rangeindex
 
+// Workspace symbols of one journal: a payee symbol is named by the payee of some transaction (its description when it has
+// no payee), sits on that transaction's first line and is as long as its name in UTF-16 units. (The handler walks the
+// open documents through sync.Map.Range, which is not modelled: the precondition - parser-made ranges - is assumed
+// there.)
+//@ pred PayeeOf(tx) := ite(tx.Payee != "", tx.Payee, tx.Description)
+//@ pred DirSym(j, s) := exists d int :: 0 <= d && d < len(j.Directives) && ((typeis(j.Directives[d], "ast.AccountDirective") && s.Name == as(j.Directives[d], "ast.AccountDirective").Account.Name) || (typeis(j.Directives[d], "ast.CommodityDirective") && s.Name == as(j.Directives[d], "ast.CommodityDirective").Commodity.Symbol))
+//@ pred PaySym(j, s, n) := exists i int :: 0 <= i && i <= n && i < len(j.Transactions) && s.Name == PayeeOf(j.Transactions[i]) && s.Location.Range.Start.Line == j.Transactions[i].Date.Range.Start.Line - 1 && s.Location.Range.End.Line == s.Location.Range.Start.Line && s.Location.Range.End.Character - s.Location.Range.Start.Character == u16(s.Name, len(s.Name))
+//@ func extractSymbols
+//@   props C08
+//@   requires journal != nil && JRefOK(journal) && JComOK(journal) && JPayOK(journal)
+//@   ensures [C08:symbol_on_its_entry] forall k int :: {result[k]} 0 <= k && k < len(result) ==> DirSym(journal, result[k]) || PaySym(journal, result[k], len(journal.Transactions))
+//@   loop 1 invariant journal != nil && JRefOK(journal) && JComOK(journal) && JPayOK(journal) && 0 - 1 <= rangeindex && rangeindex <= len(journal.Directives) - 1 && (len(symbols) == 0 || fresh(symbols))
+//@   loop 1 invariant forall k int :: {symbols[k]} 0 <= k && k < len(symbols) ==> DirSym(journal, symbols[k])
+//@   loop 1 decreases len(journal.Directives) - rangeindex
+//@   loop 2 invariant journal != nil && JRefOK(journal) && JComOK(journal) && JPayOK(journal) && 0 - 1 <= rangeindex && rangeindex <= len(journal.Transactions) - 1 && (len(symbols) == 0 || fresh(symbols)) && seen != nil && fresh(seen)
+//@   loop 2 invariant [C08:symbol_on_its_entry] forall k int :: {symbols[k]} 0 <= k && k < len(symbols) ==> DirSym(journal, symbols[k]) || PaySym(journal, symbols[k], rangeindex)
+//@   loop 2 decreases len(journal.Transactions) - rangeindex
+
 // The handler: the transaction folds come first; directive and comment-block folds are found by scanning the raw lines
 // (strings.Split / TrimSpace over the text, no relation to the syntax tree): not under contract.
 //@ trusted findDirectiveFolds
